@@ -266,7 +266,29 @@ def r3(R, repo):
   cc = cfg_of(pf)
   rets = [n for n in cc.nodes if isinstance(n.stmt, ast.Return) and isinstance(n.stmt.value, ast.Name)]
   dt = [n for n in cc.nodes if n.kind == 'if' and 'dict' in astu.src(n.ast) and 'isinstance' in astu.src(n.ast) and 'FrozenDict' not in astu.src(n.ast)]
-  ok = ok and len(rets) == 1 and len(dt) == 1 and cc.edge_guarded(rets[0], dt[0], 'T' if astu.src(dt[0].ast).startswith('not') else 'F')
+  def _truth(e, val):
+    # truth of a guard when xs is a non-dict leaf / an empty dict / a non-empty dict
+    p0 = astu.params(pf.node)[0]
+    if isinstance(e, ast.BoolOp):
+      vs = [_truth(v, val) for v in e.values]
+      return all(vs) if isinstance(e.op, ast.And) else any(vs)
+    if isinstance(e, ast.UnaryOp) and isinstance(e.op, ast.Not):
+      return not _truth(e.operand, val)
+    it = astu.isinstance_test(e, p0)
+    if it:
+      return (val != 'leaf') if 'dict' in it[1] else (val == 'leaf' and False)
+    if isinstance(e, ast.Name) and e.id == p0:
+      return val != 'empty'
+    if isinstance(e, ast.Call) and astu.call_name(e) == 'len' and astu.src(e.args[0]) == p0:
+      return val == 'nonempty'
+    raise AnalysisError('_prepare_freeze guard `%s` is outside the analysable fragment' % astu.src(e))
+  ok = ok and len(rets) == 1 and len(dt) == 1
+  if ok:
+    lab = 'T' if cc.edge_guarded(rets[0], dt[0], 'T') else ('F' if cc.edge_guarded(rets[0], dt[0], 'F') else None)
+    ok = lab is not None
+    if ok:
+      taken = {v: (_truth(dt[0].ast, v) if lab == 'T' else not _truth(dt[0].ast, v)) for v in ('empty', 'nonempty')}
+      ok = not any(taken.values())   # a dict (empty or not) is never returned as is
   R.check(ok, key_of(pf, 'rebuilds every nested dict; returns only non-dicts as is'), pf,
           '_prepare_freeze must rebuild every nested dict recursively and may return its argument unchanged only when it is not a dict')
   check_unfreeze(R, repo)
@@ -445,6 +467,7 @@ meta('C15',
                 "    if is_pytree_node:\n      data_fields.append(field_info.name)\n    meta_fields.append(field_info.name)", 'C15.R4'),
          Mutant('C15-m8', FD, "  return {key: _prepare_freeze(val) for key, val in xs.items()}", "  return dict(xs)", 'C15.R3'),
          Mutant('C15-m9', FD, "      yield (key, self[key])", "      yield (key, self._dict[key])", 'C15.R1'),
+         Mutant('C15-m10', FD, "  if not isinstance(xs, dict):\n    # return a leaf as is.\n    return xs", "  if not isinstance(xs, dict) or not xs:\n    # return a leaf as is.\n    return xs", 'C15.R3', why='seed C15-A'),
          Mutant('C15-b1', FD, "    v = self._dict[key]\n    if isinstance(v, dict):\n      return FrozenDict(v)\n    return v",
                 "    v = self._dict[key]\n    if not isinstance(v, dict):\n      return v\n    return FrozenDict(v)", kind='benign'),
      ])
